@@ -29,6 +29,13 @@ from . import workflow as wf
 
 PLATFORM = "P"
 OTHER = "Q"
+# Options patched at run time with setOptionForNode() live in the replicated in-memory description only; the stored
+# (unreplicated) description deliberately does not carry them - tests/test_dowhile.py::test_graph_instantiate_next_iter
+# asserts that the executable rewritten by checkExecutable() is back to its package value after an iteration - so a
+# history with patches is outside C07's domain (lead's decision after reviewing the agent's `patched-option-lost-on-store`
+# report; the comparison code for patches is kept but no patches are generated).
+GENERATE_PATCHES = False
+
 POOL = ["va", "vb", "v-c", "v_d"]          # ordered: a definition of POOL[i] may refer to POOL[j], j > i
 NUMVAR = "vw"                               # always numeric, usable in typed fields (walltime)
 LITERALS = ["x", "a-b", "7", "1.5", "lit_1", "p/q", "Z"]
@@ -348,7 +355,7 @@ def cases(draw, max_components=5, loops=True):
             if iters_left and draw(st.booleans()):
                 history.append(["iter", draw(st.booleans())])
                 iters_left -= 1
-            elif draw(st.integers(0, 5)) == 0:
+            elif GENERATE_PATCHES and draw(st.integers(0, 5)) == 0:
                 kind = draw(st.sampled_from(["args", "var", "newvar", "walltime"]))
                 val = {"args": "--patched", "var": "patched-%(v_d)s", "newvar": "pv",
                        "walltime": float(draw(st.integers(1, 9)))}[kind]
